@@ -76,6 +76,9 @@ func vsGenCfg(t *rapid.T) vsPoolCfg {
 
 func c04Gen(t *rapid.T) c04Scenario {
 	s := c04Scenario{Cfg: vsGenCfg(t)}
+	if s.Cfg.V6 && rapid.Bool().Draw(t, "v6only") {
+		s.Cfg.NoV4 = true
+	}
 	n := rapid.IntRange(1, vt.Scale(15, 40)).Draw(t, "nops")
 	for i := 0; i < n; i++ {
 		o := c04Op{Kind: rapid.SampledFrom([]string{"req", "req", "req", "req", "overlap", "overlap", "cancel", "cancel", "timedcancel", "timedcancel", "recreate"}).Draw(t, "opkind")}
@@ -316,8 +319,15 @@ func (x *c04World) judge(r c04Req, cid string, res c04Result, viewBefore string,
 		}
 		if res.err == nil {
 			v4, v6 := vsReplyAddrs(res.confs)
-			if v4 == "" {
+			if v4 == "" && !x.w.cfg.NoV4 {
 				c.Fatalf("ADD for %s succeeded without an IPv4 address", name)
+			}
+			if v6 == "" && x.w.cfg.V6 {
+				c.Fatalf("ADD for %s succeeded without an IPv6 address", name)
+			}
+			key := v4
+			if key == "" {
+				key = v6
 			}
 			if m.cur != nil {
 				x.labels["repeat-add"] = true
@@ -338,8 +348,8 @@ func (x *c04World) judge(r c04Req, cid string, res c04Result, viewBefore string,
 				c.Fatalf("acknowledged ADD for %s (sandbox %s) is not recorded in the store", name, cid)
 			}
 			owners := x.w.owners()
-			if owners[v4] != vsKey("ns", name) && !m.tainted {
-				c.Fatalf("acknowledged ADD for %s returned %s but the pool shows owner %q", name, v4, owners[v4])
+			if owners[key] != vsKey("ns", name) && !m.tainted {
+				c.Fatalf("acknowledged ADD for %s returned %s but the pool shows owner %q", name, key, owners[key])
 			}
 			return
 		}
